@@ -25,6 +25,8 @@ type c02Hist struct {
 	Prop     string `json:"prop,omitempty"`
 	RelEach  bool   `json:"release_after_each_next,omitempty"` // the reader is Released after every Next (the decoder stays)
 	PreSkipN int    `json:"skipn_before_each_next,omitempty"`  // io.Reader decoder only: this many filler bytes precede every value and are taken with the exported SkipN right before Next
+	NoTrail  bool   `json:"first_round_without_trailing_byte,omitempty"` // round 0: the stream ends with the last value, so its final bytes may arrive together with the source's error; round 1 is a healthy stream again
+	ViaReset bool   `json:"second_round_via_reset,omitempty"`            // bytes / io.Reader decoders: round 1 re-targets the SAME decoder with Reset instead of Release + New
 }
 
 // c02HistN: the values every history product ranges over; index c02HistN is one more value, larger than 1 MiB, used in
@@ -81,6 +83,8 @@ func c02HistOne(c *mc.Ctx, k c02Hist) {
 			mcache.VerifCoTenant(k.CoTenant == 1)
 		}
 	}
+	var heldB *thrift.BytesSkipDecoder
+	var heldR *thrift.ReaderSkipDecoder
 	pi := mc.Try(func() {
 		for round := 0; round < 2; round++ { // second round: decoder re-acquired from the pool
 			var stream []byte
@@ -98,7 +102,9 @@ func c02HistOne(c *mc.Ctx, k c02Hist) {
 				}
 				stream = append(stream, e...)
 			}
-			stream = append(stream, 0x7e) // one trailing byte
+			if !k.NoTrail || round == 1 {
+				stream = append(stream, 0x7e) // one trailing byte
+			}
 			var d nexter
 			var r bufiox.Reader
 			var er *EnvReader
@@ -117,12 +123,28 @@ func c02HistOne(c *mc.Ctx, k c02Hist) {
 				sd := thrift.NewSkipDecoder(r)
 				d, release = sd, sd.Release
 			case skBytesSkip:
-				sd := thrift.NewBytesSkipDecoder(stream)
+				sd := heldB
+				if sd != nil {
+					sd.Reset(stream)
+				} else {
+					sd = thrift.NewBytesSkipDecoder(stream)
+				}
 				d, release = sd, sd.Release
+				if k.ViaReset && round == 0 {
+					heldB, release = sd, func() {}
+				}
 			case skReaderSkip:
 				er = NewEnvReader(stream, k.Env)
-				sd := thrift.NewReaderSkipDecoder(er.Src())
+				sd := heldR
+				if sd != nil {
+					sd.Reset(er.Src())
+				} else {
+					sd = thrift.NewReaderSkipDecoder(er.Src())
+				}
 				d, release = sd, sd.Release
+				if k.ViaReset && round == 0 {
+					heldR, release = sd, func() {}
+				}
 			}
 			pos := 0
 			var kept [][]byte
@@ -267,6 +289,30 @@ func c02Histories(c *mc.Ctx) {
 				c02HistOne(c, c02Hist{Decoder: dec, Seq: seq, Env: env})
 				if (dec == skDecStream || dec == skDecBytesR) && len(seq) >= 2 {
 					c02HistOne(c, c02Hist{Decoder: dec, Seq: seq, Env: env, RelEach: true})
+				}
+			}
+		}
+	}
+	// a first stream that ENDS with its last value (final bytes may arrive together with the source's error), then a second,
+	// healthy stream through the decoder re-acquired from the pool or re-targeted with Reset: nothing of the first stream's
+	// end may be remembered
+	for _, seq := range seqs {
+		if len(seq) > 2 {
+			continue
+		}
+		for _, env := range append(append([]EnvCfg{}, envs...), EnvCfg{ErrWithLast: true}, EnvCfg{Chunk: 7, ErrWithLast: true, Err: 1}) {
+			for _, viaReset := range []bool{false, true} {
+				if !c.Mine() {
+					continue
+				}
+				if c.Expired() {
+					c.Incomplete("decoder histories (stream ends with the value): deadline")
+					return
+				}
+				c.Distinct("hist-notrail", fmt.Sprint(seq), env.String(), viaReset)
+				c02HistOne(c, c02Hist{Decoder: skReaderSkip, Seq: seq, Env: env, NoTrail: true, ViaReset: viaReset})
+				if env == envs[0] {
+					c02HistOne(c, c02Hist{Decoder: skBytesSkip, Seq: seq, Env: env, NoTrail: true, ViaReset: viaReset})
 				}
 			}
 		}
